@@ -413,7 +413,8 @@ def _strategy():
 
     @st.composite
     def case(draw):
-        nw = draw(st.sampled_from([1, 1, 2]))
+        nw = draw(st.sampled_from([1, 1, 2, 2]))
+        capture_all = draw(st.integers(0, 3)) == 0
         watchers = []
         gts = []
         for i in range(nw):
@@ -427,6 +428,11 @@ def _strategy():
                 wc["stop_children"] = True
             if draw(st.integers(0, 6)) == 0:
                 wc["respawn"] = False
+            if capture_all or draw(st.integers(0, 3)) == 0:
+                # captured output: real pipes registered with the loop
+                wc["stdout_stream"] = {"class": "QueueStream"}
+                if draw(st.booleans()):
+                    wc["stderr_stream"] = {"class": "QueueStream"}
             if draw(st.integers(0, 3)) == 0:
                 # stop-phase hooks: whatever they answer, a stop completes
                 hk = {}
